@@ -413,6 +413,27 @@ class Gen:
         self.vars[st['buf']]['iv'] = (min(lo, c), max(hi, c))
         return True
 
+    def s_bufferiop(self):
+        """a buffer as in s_buffer, then an augmented assignment through a slice view of it: row = buf[lo:hi]; row op= c
+        (NumPy and UTPM update the buffer in place through the view)"""
+        n0 = len(self.steps)
+        if not self.s_buffer():
+            return False
+        sets = [st for st in self.steps[n0:] if st['op'] == 'setitem']
+        if not sets:
+            return True
+        buf = sets[0]['buf']
+        n = self.vars[buf]['shape'][0]
+        lo = self.rng.randrange(n)
+        hi = self.rng.randint(lo + 1, n)
+        fn = self.rng.choice(['mul', 'add', 'sub', 'div'])
+        c = self.rng.choice([2.0, -0.5, 1.5])
+        self.steps.append({'op': 'iopview', 'buf': buf, 'lo': lo, 'hi': hi, 'fn': fn, 'c': c})
+        l, h = self.vars[buf]['iv']
+        cand = {'mul': [l * c, h * c], 'div': [l / c, h / c], 'add': [l + c, h + c], 'sub': [l - c, h - c]}[fn]
+        self.vars[buf]['iv'] = (min(l, *cand), max(h, *cand))
+        return True
+
     def s_buffer2d(self):
         """a 2-D buffer filled by broadcasting assignments: buf[0:m, :] = vector, buf[:, k] = scalar"""
         vec = self.pick(lambda v: len(v['shape']) == 1 and not v.get('buf'))
@@ -490,7 +511,7 @@ class Gen:
         for sh in input_shapes:
             self.new(sh, (-BOX, BOX))
         kinds = kinds or ['ew', 'ew', 'bin', 'bin', 'binc', 'getitem', 'sum', 'transpose', 'reshape', 'dot', 'dotc',
-                          'outer', 'prod', 'buffer', 'linalg', 'fftfilter', 'buffer2d', 'symvec', 'bufferconst']
+                          'outer', 'prod', 'buffer', 'linalg', 'fftfilter', 'buffer2d', 'symvec', 'bufferconst', 'bufferiop']
         nsteps = self.rng.randint(1, self.maxsteps)
         tries = 0
         made = 0
@@ -643,6 +664,16 @@ def run_program(prog, inputs):
         elif op == 'setitem':
             idx = tuple(st['idx'])
             vals[st['buf']][idx[0] if len(idx) == 1 else idx] = vals[st['val']]
+        elif op == 'iopview':
+            row = vals[st['buf']][st['lo']:st['hi']]
+            if st['fn'] == 'mul':
+                row *= st['c']
+            elif st['fn'] == 'add':
+                row += st['c']
+            elif st['fn'] == 'sub':
+                row -= st['c']
+            else:
+                row /= st['c']
         elif op == 'setconst':
             idx = tuple(st['idx'])
             vals[st['buf']][idx[0] if len(idx) == 1 else idx] = st['c']
